@@ -28,6 +28,7 @@ type emitter struct {
 	prodVars map[string]*Term
 	nlin     int
 	usesQ    bool
+	pendingDefs []*Term
 }
 
 func smtInt(k *big.Int) string {
@@ -98,6 +99,13 @@ func (e *emitter) declVar(t *Term) {
 	fmt.Fprintf(&e.sb, "(declare-fun %s () %s)\n", n, t.S.Name)
 	if lo, ok := e.f.VarLo[t]; ok && t.S == SInt {
 		fmt.Fprintf(&e.sb, "(assert (and (<= %s %s) (<= %s %s)))\n", smtInt(lo), n, n, smtInt(e.f.VarHi[t]))
+	}
+	for _, d := range e.f.Defs[t] {
+		if e.declared[fmt.Sprintf("def:%d", d.id)] {
+			continue
+		}
+		e.declared[fmt.Sprintf("def:%d", d.id)] = true
+		e.pendingDefs = append(e.pendingDefs, d)
 	}
 }
 
@@ -336,6 +344,11 @@ func (f *Factory) Script(q *Query, wantModel bool) string {
 		asserts = append(asserts, e.ref(h, nil))
 	}
 	asserts = append(asserts, "(not "+e.ref(q.Goal, nil)+")")
+	for len(e.pendingDefs) > 0 {
+		d := e.pendingDefs[0]
+		e.pendingDefs = e.pendingDefs[1:]
+		asserts = append(asserts, e.ref(d, nil))
+	}
 	var out strings.Builder
 	fmt.Fprintf(&out, "; obligation %s\n", q.Name)
 	if wantModel {
